@@ -163,11 +163,11 @@ def whereOf (s : State) (f : Filter) : Option (Event → Bool) :=
     && f.tags.all fun tc =>
         s.tags.any fun t => t.id == e.id && t.name == tc.1 && !t.value.isEmpty && tc.2.contains t.value
 
-/-- `LIMIT`: the last filter with a truthy limit wins, capped by `default_limit` -/
+/-- `LIMIT`: the last filter with a limit (`is not None`, so 0 counts) wins, capped by `default_limit` -/
 def effectiveLimit (fs : List Filter) (defaultLimit maxLimit : Nat) : Nat :=
   fs.foldl (fun acc f =>
     let l := if filterRaises f then some maxLimit else f.limit
-    match l with | some (n+1) => min (n+1) defaultLimit | _ => acc) defaultLimit
+    match l with | some n => min n defaultLimit | none => acc) defaultLimit
 
 /-- rows matching the REQ (OR of its filters), before ORDER BY / LIMIT -/
 def matchingRows (s : State) (fs : List Filter) : List Event :=
